@@ -19,6 +19,7 @@ import tempfile
 from .. import values as V
 
 ID = "C19"
+CHECK_BUILT_DESCRIPTOR = True     # engine.oracle_of: declared records must carry their declared descriptor
 CLAIM = dict(
     text="Kernel-checked: schema<->descriptor inverse for ALL descriptors over the mapped types (any number of fields incl. "
          "the zero-field descriptor, which is proved to fail the doc sniff and to be rebuilt from namespace/name), for the "
